@@ -148,15 +148,16 @@ fn e_cred(id: u8) -> csl::Credential {
 }
 fn e_cert(id: u8) -> csl::Certificate {
     let c = csl::Credential::from_keyhash(&key(id as u16 % 3).hash);
-    if id % 5 == 4 {
-        // the one certificate that nests a set (pool owners)
+    if id == 4 || id == 6 {
+        // the one certificate that nests a set (pool owners); the two share their operator and
+        // differ in everything else - they are two different elements
         let mut owners = csl::Ed25519KeyHashes::new();
         owners.add(&key(id as u16).hash);
         owners.add(&key(id as u16 + 1).hash);
         let params = csl::PoolParams::new(
-            &key(id as u16).hash,
+            &key(4).hash,
             &csl::VRFKeyHash::from_bytes(blake2b256(&[id, 1]).to_vec()).unwrap(),
-            &csl::BigNum::from(1000u64),
+            &csl::BigNum::from(1000u64 + id as u64),
             &csl::BigNum::from(340_000_000u64),
             &csl::UnitInterval::new(&csl::BigNum::from(1u64), &csl::BigNum::from(20u64)),
             &csl::RewardAddress::new(0, &c),
